@@ -158,7 +158,18 @@ func (rc *RunCtx) objDrive(u *ExecUniverse, bin string, seed int64, g, perG, his
 	cmd.Env = append(os.Environ(), "GORACE=log_path="+filepath.Join(dir, "race")+" halt_on_error=0 exitcode=0 history_size=3")
 	outb, err := cmd.CombinedOutput()
 	if err != nil {
-		rc.infra("objdrv: %v\n%s", err, string(outb))
+		// The Go runtime aborts the process on unsynchronised map access (it is
+		// not a panic and cannot be recovered): when the stack shows the library,
+		// that is a data race demonstrated on the real code, not a driver failure.
+		out := string(outb)
+		if i := strings.Index(out, "fatal error:"); i >= 0 && strings.Contains(out[i:], "theory/sqljson") {
+			human := "the Go runtime aborted the driver: " + firstLines(out[i:], 16)
+			rc.Viol = append(rc.Viol, Violation{Clause: "C19.data-race", Sig: "C19.data-race | " + firstLines(out[i:], 1), Human: human,
+				Replay: map[string]any{"runtime_abort": firstLines(out[i:], 60)}})
+			rc.abortedByRace = true
+			return nil
+		}
+		rc.infra("objdrv: %v\n%s", err, out)
 		return nil
 	}
 	r := &objRun{dir: dir}
